@@ -54,3 +54,88 @@ package transport
 //@ func Dial(urlString string) (conn Conn, err error)
 //@   ensures [conn] err == nil ==> conn != nil
 //@   modifies nothing
+
+// ---------------------------------------------------------------- BaseConn (C19, C03)
+//
+// ncarrierclose / ndeadline: Close and SetReadDeadline calls on the carrier by
+// the running invocation; wire / nflush: see the stream codec (package packet).
+//@ ghost ncarrierclose int
+//@ ghost ndeadline int
+//@ interface Carrier.Close() (err error)
+//@   ensures ncarrierclose == old(ncarrierclose) + 1
+//@   modifies ncarrierclose
+//@ interface Carrier.SetReadDeadline(t time.Time) (err error)
+//@   ensures ndeadline == old(ndeadline) + 1
+//@   modifies ndeadline
+//
+//@ spec pred conn_ok(c *BaseConn) = c.carrier != nil && c.stream != nil && c.stream.Encoder != nil && c.stream.Decoder != nil && c.stream.Encoder.writer != nil && c.stream.Decoder.reader != nil
+//@ guarded_by BaseConn.receiveMutex: BaseConn.readTimeout
+//@ writers BaseConn.carrier: NewBaseConn
+//@ writers BaseConn.stream: NewBaseConn
+//@ callsites (*Encoder).Write: (*BaseConn).Send
+//@ callsites (*Encoder).Flush: (*BaseConn).Close
+//@ callsites (*Decoder).Read: (*BaseConn).Receive
+//
+// Send: encode + write form one critical section of sendMutex, so the bytes
+// of two packets never interleave; exactly Len() bytes are accepted per
+// packet; an error closes the carrier.
+//@ func (c *BaseConn) Send(pkt packet.Generic, async bool) (err error)
+//@   requires [unlocked] held[c.sendMutex] == 0
+//@   requires [conn] conn_ok(c) && pkt != nil
+//@   ensures [whole] err == nil ==> wire == old(wire) + plen(pkt) && ncarrierclose == old(ncarrierclose)
+//@   ensures [error-closes] err != nil ==> ncarrierclose == old(ncarrierclose) + 1 && wire == old(wire)
+//@   ensures [released] held == old(held)
+//@   modifies wire, ngrow, bufcap, buflen, elemsof(byte), ncarrierclose, held
+//@   at call 1 Write assert [locked] held[c.sendMutex] == 2
+//
+// Receive: one packet per call under receiveMutex; never a packet together
+// with an error; an error closes the carrier; the read deadline is re-armed
+// after every received packet.
+//@ func (c *BaseConn) Receive() (pkt packet.Generic, err error)
+//@   requires [unlocked] held[c.receiveMutex] == 0
+//@   requires [conn] conn_ok(c)
+//@   ensures [never-both] (err == nil ==> pkt != nil && typecode(pkt) != 0) && (err != nil ==> pkt == nil)
+//@   ensures [error-closes] err != nil ==> ncarrierclose == old(ncarrierclose) + 1
+//@   ensures [rearmed] err == nil ==> ndeadline == old(ndeadline) + 1 && ncarrierclose == old(ncarrierclose)
+//@   ensures [released] held == old(held)
+//@   modifies elemsof(byte), ngrow, nreadfull, bufcap, buflen, ncarrierclose, ndeadline, held
+//@   at call 1 Read assert [locked] held[c.receiveMutex] == 2
+//
+// Close: everything accepted by earlier buffered sends is flushed before the
+// carrier is closed, both under sendMutex; the carrier is closed on every path.
+//@ func (c *BaseConn) Close() (err error)
+//@   requires [unlocked] held[c.sendMutex] == 0
+//@   requires [conn] conn_ok(c)
+//@   ensures [closed] ncarrierclose == old(ncarrierclose) + 1 && nflush == old(nflush) + 1
+//@   ensures [released] held == old(held)
+//@   modifies nflush, ncarrierclose, held
+//@   at call 1 Flush assert [locked] held[c.sendMutex] == 2
+//@   at call 1 Close assert [flush-first] nflush == old(nflush) + 1 && held[c.sendMutex] == 2
+//
+//@ func (c *BaseConn) resetTimeout() (err error)
+//@   requires [locked] held[c.receiveMutex] == 2
+//@   requires [conn] c.carrier != nil
+//@   ensures ndeadline == old(ndeadline) + 1
+//@   modifies ndeadline
+//@ func (c *BaseConn) SetReadTimeout(timeout time.Duration)
+//@   requires [unlocked] held[c.receiveMutex] == 0
+//@   requires [conn] c.carrier != nil
+//@   ensures [set] c.readTimeout == timeout && ndeadline == old(ndeadline) + 1
+//@   ensures [released] held == old(held)
+//@   modifies c.readTimeout, ndeadline, held
+//@ func (c *BaseConn) SetReadLimit(limit int64)
+//@   requires [conn] conn_ok(c)
+//@   modifies c.stream.Decoder.limit
+//
+// wsStream.Read stitches WebSocket messages into one byte stream: it never
+// reports more bytes than the buffer holds and every reslice is in range.
+//@ global ErrNotBinary [nonnil] ErrNotBinary != nil
+//@ func (s *wsStream) Read(buf []byte) (n int, err error)
+//@   requires [conn] s.conn != nil
+//@   ensures [bound] 0 <= n && n <= len(buf)
+//@   modifies s.reader, elemsof(byte)
+//@   loop 1 invariant [pos] 0 <= total && total + len(buf) == len(entry(buf)) && arr(buf) == arr(entry(buf))
+//@ func (s *wsStream) Write(buf []byte) (n int, err error)
+//@   requires [conn] s.conn != nil
+//@   ensures [bound] 0 <= n && n <= len(buf)
+//@   modifies nothing
